@@ -1740,6 +1740,10 @@ class MiniInterp:
             if base == "pairwise" and len(args) == 1:
                 xs = self.iterate(args[0])
                 return _Iter(list(zip(xs, xs[1:])))
+        if mod == "heapq" and base in ("nlargest", "nsmallest") and len(args) >= 2:
+            keyf = kwargs.get("key", args[2] if len(args) > 2 else None)
+            xs = self.builtin("sorted", [self.iterate(args[1])], {"key": keyf, "reverse": base == "nlargest"} if keyf is not None else {"reverse": base == "nlargest"}, node)
+            return list(xs)[:args[0]]
         if mod == "collections" and base == "deque":
             return Deque(self.iterate(args[0]) if args else [])
         if mod == "collections" and base == "defaultdict":
@@ -2081,6 +2085,21 @@ class MiniInterp:
                 args[0].fields[args[1]] = args[2]
                 return None
             if name == "len":
+                a0 = args[0]
+                if isinstance(a0, T) and a0 and a0[0] == "class":
+                    ml = self.class_protocol(a0, "__len__")
+                    if ml is not None:
+                        return self.call(ml, [], {}, a0)
+                if isinstance(a0, (Sym, SymDict)) and getattr(a0, "cls", None) is not None:
+                    lm = a0.cls.find_method("__len__")
+                    if lm is not None:
+                        return self.call(self.prj.func(lm.qual, raw=True), [], {}, a0)
+                    if isinstance(a0, Sym) and getattr(a0, "tuple_order", None):
+                        return len(a0.tuple_order)
+                    if isinstance(a0, Sym) and not a0.open and not a0.cls.external_bases():
+                        raise PyRaise("TypeError", node)
+                if isinstance(a0, (_Iter, LazyIter)):
+                    raise PyRaise("TypeError", node)       # iterators have no len()
                 if isinstance(args[0], T):
                     return len(self.iterate(args[0]))
                 if isinstance(args[0], ISet):
